@@ -41,7 +41,7 @@ EXHAUSTIVE = True
 CASE_TIMEOUT = 10.0
 RULE = ("exhaustive: every ordered bus population of 0..3 devices over {target address, other address} x programming mode x "
         "{answers, silent, refuses} (1885 populations) through nm_individual_address_write, nm_individual_address_check, "
-        "nm_individual_address_read (raise_if_multiple on/off) and dm_restart, write and check additionally with the reactions delivered inside the causing send; every population of 0..3 devices over "
+        "nm_individual_address_read (raise_if_multiple on/off) and dm_restart, histories of 2-4 procedures on ONE XKNX object (an earlier check / restart / read / write at either address, then the address write), write and check additionally with the reactions delivered inside the causing send; every population of 0..3 devices over "
         "{2 addresses} x {2 serials} x {chatty, quiet} x {takes, ignores the write} through the serial-number read (both serials) and write (both serials x "
         "both addresses) procedures; dmp_authorize2_r_co over all 16x16 (free level, key level) pairs and all 16^3 answer triples "
         "of levels {0,1,2,3,7,15}; non-trivial = every case (all distinct)")
@@ -188,11 +188,61 @@ def classify(e):
     return "other:" + type(e).__name__
 
 
+async def run_step(xknx, bus, proc, t, addr=None):
+    """One procedure on the given XKNX object; returns the canonical result."""
+    target = ADDR[addr] if addr else T_ADDR
+    try:
+        if proc == "write":
+            await nm_individual_address_write(xknx, target)
+            return "ok"
+        if proc == "check":
+            return "ok:" + str(int(await nm_individual_address_check(xknx, target)))
+        if proc == "read":
+            r = await nm_individual_address_read(xknx, raise_if_multiple=t[2] == "1")
+            return "ok:" + "".join(RADDR[a] for a in r)
+        if proc == "restart":
+            await dm_restart(xknx, target)
+            return "ok"
+        if proc == "sread":
+            r = await nm_individual_address_serial_number_read(xknx, SERIAL[t[2]])
+            return "ok:" + ("none" if r is None else RADDR[r])
+        if proc == "swrite":
+            await nm_individual_address_serial_number_write(xknx, SERIAL[t[2]], ADDR[t[3]])
+            return "ok"
+        if proc in ("auth2", "auth2seq"):
+            async with xknx.management.connection(T_ADDR) as conn:
+                return "ok:" + str(await dmp_authorize2_r_co(conn, CLIENT_KEY))
+        raise ValueError(proc)
+    except Exception as e:  # noqa: BLE001
+        return classify(e)
+
+
+def render_step(bus, res, devs, kind):
+    pop = ";".join(d.render(kind) for d in devs) or "-"
+    raised = ("!" + ",".join(bus.raised)) if bus.raised else ""
+    # T_ACKs are sent by background tasks: their position among the other telegrams is asyncio scheduling, not procedure logic
+    acks = sorted(x for x in bus.sent if x.startswith("A:"))
+    tels = [x for x in bus.sent if not x.startswith("A:")]
+    return f"{','.join(tels) or '-'} +{','.join(acks) or '-'} -> {res} | {pop}{raised}"
+
+
+def seq_steps(ops):
+    """`check:o,read1:-,write:t` -> [(proc, pseudo-op tokens, addr)]"""
+    out = []
+    for tok in ops.split(","):
+        name, a = tok.split(":")
+        if name in ("read0", "read1"):
+            out.append(("read", ["proc", "read", name[-1]], None))
+        else:
+            out.append((name, ["proc", name], a))
+    return out
+
+
 async def scenario(loop, case):
     t = case["op"].split()
     proc = t[1]
-    sync = proc in ("writes", "checks")
-    proc = {"writes": "write", "checks": "check"}.get(proc, proc)
+    sync = proc in ("writes", "checks", "seqs")
+    proc = {"writes": "write", "checks": "check", "seqs": "seq"}.get(proc, proc)
     kind = "serial" if proc in ("sread", "swrite") else "addr"
     xknx = XKNX()
     if proc in ("auth2", "auth2seq"):
@@ -205,38 +255,18 @@ async def scenario(loop, case):
         devs = parse_pop(t[-1], kind)
     bus = Bus(xknx, loop, devs, sync)
     xknx.cemi_handler = bus
-    try:
-        if proc == "write":
-            await nm_individual_address_write(xknx, T_ADDR)
-            res = "ok"
-        elif proc == "check":
-            res = "ok:" + str(int(await nm_individual_address_check(xknx, T_ADDR)))
-        elif proc == "read":
-            r = await nm_individual_address_read(xknx, raise_if_multiple=t[2] == "1")
-            res = "ok:" + "".join(RADDR[a] for a in r)
-        elif proc == "restart":
-            await dm_restart(xknx, T_ADDR)
-            res = "ok"
-        elif proc == "sread":
-            r = await nm_individual_address_serial_number_read(xknx, SERIAL[t[2]])
-            res = "ok:" + ("none" if r is None else RADDR[r])
-        elif proc == "swrite":
-            await nm_individual_address_serial_number_write(xknx, SERIAL[t[2]], ADDR[t[3]])
-            res = "ok"
-        elif proc in ("auth2", "auth2seq"):
-            async with xknx.management.connection(T_ADDR) as conn:
-                res = "ok:" + str(await dmp_authorize2_r_co(conn, CLIENT_KEY))
-        else:
-            raise ValueError(proc)
-    except Exception as e:  # noqa: BLE001
-        res = classify(e)
+    if proc == "seq":
+        # several procedures one after the other on the SAME XKNX object and bus
+        parts = []
+        for name, toks, addr in seq_steps(t[2]):
+            bus.sent, bus.raised = [], []
+            res = await run_step(xknx, bus, name, toks, addr)
+            await loop.settle()
+            parts.append(render_step(bus, res, devs, kind))
+        return " // ".join(parts)
+    res = await run_step(xknx, bus, proc, t)
     await loop.settle()
-    pop = ";".join(d.render(kind) for d in devs) or "-"
-    raised = ("!" + ",".join(bus.raised)) if bus.raised else ""
-    # T_ACKs are sent by background tasks: their position among the other telegrams is asyncio scheduling, not procedure logic
-    acks = sorted(x for x in bus.sent if x.startswith("A:"))
-    tels = [x for x in bus.sent if not x.startswith("A:")]
-    return f"{','.join(tels) or '-'} +{','.join(acks) or '-'} -> {res} | {pop}{raised}"
+    return render_step(bus, res, devs, kind)
 
 
 def run_impl(case):
@@ -250,6 +280,18 @@ def run_impl(case):
 
 def oracle(case, out):
     t = case["op"].split()
+    if t[1] in ("seq", "seqs"):
+        pop = t[-1]
+        for n, ((name, toks, addr), part) in enumerate(zip(seq_steps(t[2]), out.split(" // "))):
+            msg = oracle_one(toks + [pop], part, addr or "t")
+            if msg:
+                return f"step {n} ({name}:{addr}) of the history: {msg}"
+            pop = part.split(" | ")[1].split("!")[0]
+        return None
+    return oracle_one(t, out, "t")
+
+
+def oracle_one(t, out, tgt):
     proc = {"writes": "write", "checks": "check"}.get(t[1], t[1])
     tels, rest = out.split(" -> ")
     tels, acks = tels.split(" +")
@@ -263,17 +305,17 @@ def oracle(case, out):
         before = [(x[0], x[1] == "1", x[2]) for x in ([] if t[-1] == "-" else t[-1].split(";"))]
         after = [(x[0], x[1] == "1", x[2]) for x in ([] if pop_after == "-" else pop_after.split(";"))]
         prog = [d for d in before if d[1]]
-        answering_at_t = [d for d in before if d[0] == "t" and d[2] != "S"]
+        answering_at_t = [d for d in before if d[0] == tgt and d[2] != "S"]
         for tel in tels:
             f = tel.split(":")
-            if f[0] in "CXDA" and f[1] != "t":
+            if f[0] in "CXDA" and f[1] != tgt:
                 return f"point-to-point telegram {tel} to an address that is not the target"
         wrote = [x for x in tels if x.startswith("B:write")]
         if proc != "write" and wrote:
             return "address written by a procedure that only reads"
         if proc == "write":
             if wrote:
-                if wrote != ["B:write:t"]:
+                if wrote != ["B:write:" + tgt]:
                     return f"wrote {wrote}"
                 if len(prog) != 1:
                     return f"address written with {len(prog)} devices in programming mode"
@@ -283,18 +325,18 @@ def oracle(case, out):
             for i, j in itertools.combinations(range(len(after)), 2):
                 if after[i][0] == after[j][0] and before[i][0] != before[j][0] and after[i][2] != "S" and after[j][2] != "S":
                     return f"devices {i} and {j} now share address {after[i][0]}"
-            if len(prog) == 1 and prog[0][0] == "t" and prog[0][2] != "S":
+            if len(prog) == 1 and prog[0][0] == tgt and prog[0][2] != "S":
                 if wrote:
                     return "target already held by the device in programming mode, but the address was written"
             if res == "ok" and not any(x.endswith(":restart") for x in tels):
                 return "procedure succeeded without restarting the device"
-            if (len(prog) == 1 and prog[0][0] == "t" and any(d[2] == "A" for d in before if d[0] == "t")
-                    and not any(d[2] == "R" for d in before if d[0] == "t")):
+            if (len(prog) == 1 and prog[0][0] == tgt and any(d[2] == "A" for d in before if d[0] == tgt)
+                    and not any(d[2] == "R" for d in before if d[0] == tgt)):
                 if res != "ok" or not any(x.endswith(":restart") for x in tels):
                     return f"target already held by the answering device in programming mode: result {res}, restart not sent"
         restarted = [i for i in range(len(after)) if before[i][1] and not after[i][1]]
         for i in restarted:
-            if after[i][0] != "t":
+            if after[i][0] != tgt:
                 return f"device {i} at address {after[i][0]} was restarted"
         if proc == "read":
             want = "".join(d[0] for d in prog)
@@ -371,6 +413,20 @@ def generate(rng, tier):
     for p in pops(KINDS):
         yield {"op": f"proc writes {p}"}
         yield {"op": f"proc checks {p}"}
+    # histories: an earlier procedure (ending in each way against each device), then the address write, on ONE XKNX object
+    pre = ["check:t", "check:o", "restart:t", "restart:o", "read0:-", "read1:-", "write:t"]
+    for p in pops(KINDS, 2 if tier == "quick" else 3):
+        if p == "-":
+            continue
+        for a in pre:
+            yield {"op": f"proc seq {a},write:t {p}"}
+            yield {"op": f"proc seqs {a},write:t {p}"}
+    for p in pops(KINDS, 2):
+        if p == "-":
+            continue
+        for a in pre:
+            for b in (pre if tier != "quick" else ["check:o", "check:t"]):
+                yield {"op": f"proc seq {a},{b},write:t,check:t {p}"}
     for p in pops(SKINDS, 3 if tier != "quick" else 2):
         for s in "12":
             yield {"op": f"proc sread {s} {p}"}
